@@ -52,6 +52,13 @@ theorem parse_format_int (n b : Int) (hd : intDomain n b = true) (hmin : n ≠ i
   · simp [formatInt, hb2, hb36, hf, Res.map]
   · simp [parseInt, hb2, hb36, hp, optToRes, Res.map]
 
+/-- with both `base` arguments absent (`format_int` defaults to 10, `parse_int` detects the base
+    from the prefix) the round trip holds as well. -/
+theorem parse_format_int_default (n : Int) (hn : inI64 n = true) (hmin : n ≠ i64Min) :
+    ∃ s, formatInt (.int n) (.int 10) = .ok (.bytes s) ∧ parseInt (.bytes s) none = .ok (.int n) := by
+  refine ⟨signedText 10 n, ?_, parseInt_auto_signedText n hn⟩
+  simp [formatInt, formatRadix_eq_signedText n 10 hmin, Res.map]
+
 /-- the same statement through the Spec predicate the oracle evaluates. -/
 theorem specInt_model (n b : Int) (hmin : n ≠ i64Min) :
     specInt n b (formatInt (.int n) (.int b))
